@@ -3870,6 +3870,21 @@ fn resolve_context_compile_cutpoint_full(
 pub mod verif_hooks {
     use super::*;
 
+    /// The bounded window read of the full sidecar through its seek index, as the compile-input
+    /// loader uses it: the seqs of the frames it kept, `None` without a sidecar.
+    pub fn full_sidecar_window_from_seq(
+        store: &ContinuityStore,
+        continuity_id: &str,
+        from_seq: u64,
+        message_limit: usize,
+    ) -> Result<Option<Vec<u64>>, String> {
+        store
+            .stream_cache
+            .window_recent_messages_v1_from_seq(continuity_id, from_seq, message_limit)
+            .map(|w| w.map(|w| w.events.iter().map(|e| e.seq).collect()))
+            .map_err(|e| e.to_string())
+    }
+
     #[allow(clippy::too_many_arguments)]
     pub fn append_selection_decided(
         store: &ContinuityStore,
